@@ -9,9 +9,10 @@ NAMES = ["a", "b", "c", "d", "e", "x", "z", "a.b", "a b", "B", "Z", "_", "0", "1
          "é", "ß", "日本", "𝄞", "a%26b", "a&b=c", "a+b", "#h", "~", "aa", "ab", "a-", "a.",
          "f.bin", "F.BIN", "data", "data.0", "data0", "ÿ", "Ā", "\U0001F600", "�",
          "cafe\u0301.txt", "caf\u00e9.txt", "A\u030a", "\u00c5",
-         ".hidden", ".pad-notes.txt", "-dash", "info", "m", "new", "check", "@at", "a.torrent"]
+         ".hidden", ".pad-notes.txt", "-dash", "info", "m", "new", "check", "@at", "a.torrent",
+         "1", "16383", "16384"]
 DIRS = ["d", "d.d", "dir", "D", "a", "a.b", "sub", "ü", "0", "z z", "𝄞d", "u\u0308", "cover",
-        ".padlock", ".git", "-x", "edit"]
+        ".padlock", ".git", "-x", "edit", ".pad", ".pad"]
 
 
 def size_classes(B, pl):
